@@ -216,6 +216,9 @@ func (z *Polyizer) Of(v ssa.Value) Poly {
 			return p
 		}
 	}
+	if a := resolveAlias(v); a != v {
+		return z.Of(a)
+	}
 	if z.Subst != nil {
 		if r := z.Subst(v); r != nil && r != v {
 			return z.Of(r)
